@@ -283,3 +283,28 @@ func heldAt(fn *ssa.Function, at ssa.Instruction, muAddr string, exclusive bool)
 	}
 	return false
 }
+
+// heldAtOrByCallers: the lock is held at `at`, or fn is an unexported method
+// reached only through call sites (same receiver) at which it is held.
+func (p *P) heldAtOrByCallers(fn *ssa.Function, at ssa.Instruction, muAddr string, exclusive bool, depth int) bool {
+	if heldAt(fn, at, muAddr, exclusive) {
+		return true
+	}
+	n := fn.Name()
+	if depth > 2 || n == "" || (n[0] >= 'A' && n[0] <= 'Z') || fn.Signature.Recv() == nil || !strings.HasPrefix(muAddr, "&$0.") {
+		return false
+	}
+	callers := p.callersOf(funcName(fn))
+	if len(callers) == 0 {
+		return false
+	}
+	for _, cs := range callers {
+		if cs.Instr == nil || cs.Arg(0) != "$0" {
+			return false
+		}
+		if !p.heldAtOrByCallers(cs.Fn, cs.Instr, muAddr, exclusive, depth+1) {
+			return false
+		}
+	}
+	return true
+}
